@@ -33,7 +33,7 @@ func main() {
 		fmt.Fprintln(os.Stderr, "hC03: -out required")
 		os.Exit(2)
 	}
-	w, err := casefile.New(*out, "C03", "From Coq Require Import ZArith.\nFrom VLib Require Import CaseLib.\nFrom C03 Require Import Model CaseDefs.\nLocal Open Scope N_scope.", 300)
+	w, err := casefile.New(*out, "C03", "From Coq Require Import ZArith.\nFrom VLib Require Import CaseLib.\nFrom C03 Require Import Model ModelBytes CaseDefs.\nLocal Open Scope N_scope.", 300)
 	if err != nil {
 		fmt.Fprintln(os.Stderr, err)
 		os.Exit(2)
